@@ -10,6 +10,8 @@ import (
 	"io"
 	"math/rand"
 	"os"
+	"sort"
+	"strings"
 	"sync"
 	"time"
 
@@ -92,16 +94,28 @@ func main() {
 	os.Unsetenv("VAXIS_GRAPHICS")
 	cfg := hx.ParseFlags()
 	r := cfg.Rand
-	s := hx.NewStream("embed", "model.RenderTypes model.Render model.RenderCheck model.EmuSpec model.EmuBridge", "ecase", "c12_mismatches", "c12_violations_all")
+	s := hx.NewStream("embed", "model.RenderTypes model.Render model.RenderCheck model.EmuSpec model.EmuBridge model.EmuBytes", "ecase", "c12_mismatches", "c12_violations_all")
 	s.ShardMax = 25
+	// histories that start on a primary screen already filled with styled text (what a shell
+	// leaves before the application starts): after a resize the emulator's pen is the style of
+	// a re-printed cell (proposed finding resize-pen-leak).  Generated only on request, as long
+	// as the finding is not recorded.
+	withDirty := os.Getenv("C12_DIRTY_PRIMARY") != ""
+	if withDirty {
+		s.Known = "c12_known"
+		s.KnownClass = "resize-pen-leak"
+	}
 	nHist, maxRows, maxCols, maxFrames := 160, 4, 9, 6
 	if cfg.Thorough() {
 		nHist, maxRows, maxCols, maxFrames = 4000, 10, 30, 10
 	}
 	var direct []hx.DirectViolation
 	frames := 0
+	nResize := 0
 	for h := 0; h < nHist; h++ {
 		rows, cols := 1+r.Intn(maxRows), 2+r.Intn(maxCols)
+		rows0, cols0 := rows, cols
+		hResizes := 0
 		emu, oc, msg := term.VerifNewTerm(cols, rows)
 		if oc != 0 {
 			direct = append(direct, hx.DirectViolation{Class: "emulator-setup", Case: []int{rows, cols}, What: msg})
@@ -109,9 +123,11 @@ func main() {
 		}
 		var mu sync.Mutex
 		var feedProblem string
+		// uniseg's answers: every printed run the real parser delivered, with its clusters
+		segs := map[string][]ansi.Print{}
 		fc := hx.NewFakeConsole(hx.Profile{Rows: rows, Cols: cols})
 		fc.AutoReply = false
-		fc.WriteHook = func(b []byte) {
+		feedBytes := func(b []byte) {
 			mu.Lock()
 			defer mu.Unlock()
 			// parse first (again when the Escape timer fired: a scheduling artefact, see
@@ -133,14 +149,40 @@ func main() {
 			for n := 0; n < hx.TimerEscRetries && timerEsc; n++ {
 				seqs, timerEsc = parse()
 			}
+			var run []ansi.Print
+			flush := func() {
+				if len(run) > 0 {
+					var sb strings.Builder
+					for _, p := range run {
+						sb.WriteString(p.Grapheme)
+					}
+					segs[sb.String()] = run
+					run = nil
+				}
+			}
 			for _, seq := range seqs {
+				if p, ok := seq.(ansi.Print); ok {
+					run = append(run, p)
+				} else {
+					flush()
+				}
 				if o, m := emu.Feed(seq); o != 0 && feedProblem == "" {
 					feedProblem = fmt.Sprintf("outcome %d on %v: %s", o, seq, m)
 				}
 			}
+			flush()
 			if rep := emu.Replies(); len(rep) > 0 {
 				fc.Inject(rep)
 			}
+		}
+		fc.WriteHook = feedBytes
+		var pre []byte
+		if withDirty && h%3 == 2 {
+			// (the cursor is sent home: Vaxis' explicit-width probe reads the cursor position
+			// the application started at, see the report)
+			pre = []byte(fmt.Sprintf("\x1b[4%dm%s\x1b[m\x1b[H", 1+r.Intn(6), strings.Repeat("x", rows*cols)))
+			feedBytes(pre)
+			emu.Replies()
 		}
 		vx, err := vaxis.New(vaxis.Options{WithConsole: fc, NoSignals: true, DisableMouse: true})
 		if err != nil {
@@ -222,10 +264,43 @@ func main() {
 				}
 			}
 			end := "FRender"
-			if r.Intn(8) == 0 {
+			resized := false
+			switch x := r.Intn(40); {
+			case x < 5:
 				vx.Refresh()
 				end = "FRefresh"
-			} else {
+			case x < 12 && f > 0:
+				// a size change: the host window changes size, drawing the emulator into it
+				// resizes the emulator (Draw -> Resize), Vaxis inside sees the new size at its
+				// next Render and writes nothing; the frame after it repaints
+				oldRows, oldCols := rows, cols
+				switch r.Intn(6) {
+				case 0:
+					rows, cols = 1, 1
+				case 1:
+					rows = 1 + r.Intn(rows) // shrink, possibly below the cursor
+				case 2:
+					rows, cols = rows+1+r.Intn(2), cols+r.Intn(3) // grow
+				case 3:
+					cols = 1 + r.Intn(cols)
+				default:
+					rows, cols = 1+r.Intn(maxRows), 1+r.Intn(maxCols+1)
+				}
+				if rows == oldRows && cols == oldCols {
+					cols++
+				}
+				hostFC.SetSize(rows, cols)
+				host.Resize()
+				host.Render()
+				emu.Model().Draw(host.Window())
+				fc.SetSize(rows, cols)
+				vx.Resize()
+				vx.Render()
+				end = fmt.Sprintf("(FResize %d %d)", rows, cols)
+				resized = true
+				nResize++
+				hResizes++
+			default:
 				vx.Render()
 			}
 			toks := renderhx.Tokenize(fc.Take())
@@ -265,6 +340,9 @@ func main() {
 			fterms = append(fterms, fmt.Sprintf("Build_eframe %s %s %s %s %s %s %s", hx.List(ops), end, hx.List(toks), hx.List(gridT), curT, hx.List(hostT), hcurT))
 			fjson = append(fjson, map[string]interface{}{"ops": opsJ, "end": end, "tokens": len(toks)})
 			frames++
+			if resized {
+				haveCursor = false
+			}
 			for len(vx.Events()) > 0 {
 				<-vx.Events()
 			}
@@ -273,15 +351,33 @@ func main() {
 		for _, g := range graphemes {
 			wt = append(wt, hx.Tuple(hx.Runes(g), fmt.Sprint(vx.RenderedWidth(g))))
 		}
-		js := map[string]interface{}{"rows": rows, "cols": cols, "frames": fjson, "caps": got}
+		var runs []string
+		for k := range segs {
+			runs = append(runs, k)
+		}
+		sort.Strings(runs)
+		var st []string
+		for _, k := range runs {
+			var cl []string
+			for _, p := range segs[k] {
+				cl = append(cl, hx.Tuple(hx.Runes(p.Grapheme), fmt.Sprint(p.Width)))
+			}
+			st = append(st, hx.Tuple(hx.Runes(k), hx.List(cl)))
+		}
+		js := map[string]interface{}{"rows": rows0, "cols": cols0, "frames": fjson, "caps": got}
+		if len(pre) > 0 {
+			js["class"] = "resize-pen-leak"
+			js["pre"] = string(pre)
+		}
 		if feedProblem != "" {
 			direct = append(direct, hx.DirectViolation{Class: "emulator-feed", Case: js, What: feedProblem})
 		}
-		s.Add(fmt.Sprintf("Build_ecase %d %d %s %s %s", rows, cols, hx.List(wt), hx.List(capsT), hx.List(fterms)), js, nf > 1, fmt.Sprintf("frames=%d", nf))
+		s.Add(fmt.Sprintf("Build_ecase %d %d %s %s %s %s %s", rows0, cols0, hx.List(wt), hx.List(st), hx.List(capsT), hx.Bytes(pre), hx.List(fterms)), js, nf > 1,
+			fmt.Sprintf("frames=%d", nf), fmt.Sprintf("resizes=%d", hResizes), fmt.Sprintf("dirty=%v", len(pre) > 0))
 		hx.WithTimeout(2*time.Second, vx.Close)
 		hx.WithTimeout(2*time.Second, host.Close)
 		emu.Close()
 	}
-	cfg.Write("C12", "a real Vaxis started on the real embedded emulator (handshake through the emulator's own replies), random frame histories as in C01 (sizes up to 4x9 quick / 10x30 thorough, wide, zero-width and multi-codepoint graphemes, all colour classes, attributes, underline styles, hyperlinks, cursor), ended by Render or Refresh; after every frame the emulator's grid and cursor and the cells obtained by drawing the emulator into a host Vaxis are recorded. non-trivial = more than one frame",
-		[]*hx.Stream{s}, map[string]interface{}{"frames": frames}, direct)
+	cfg.Write("C12", "a real Vaxis started on the real embedded emulator (handshake through the emulator's own replies), random frame histories as in C01 (sizes up to 4x9 quick / 10x30 thorough, wide, zero-width and multi-codepoint graphemes, all colour classes, attributes, underline styles, hyperlinks, cursor), ended by Render, Refresh or a size change (the host window is resized - to 1x1, shrinking below the cursor, growing, random -, drawing the emulator into it resizes the emulator, Vaxis sees the new size and repaints with the next frame); after every frame the emulator's grid and cursor and the cells obtained by drawing the emulator into a host Vaxis are recorded, and for every printed run the clusters and widths the real parser (uniseg) cut it into. non-trivial = more than one frame",
+		[]*hx.Stream{s}, map[string]interface{}{"frames": frames, "resizes": nResize}, direct)
 }
